@@ -3,6 +3,7 @@ use serde_json::{json, Value};
 use std::collections::HashMap;
 
 mod adj;
+mod container;
 mod search;
 mod serde_io;
 
@@ -33,6 +34,8 @@ fn main() {
         "compare-table" => search::compare_table(&opts),
         "replay-scc" => search::replay_scc(&opts),
         "record-serde" => serde_io::record_serde(&opts),
+        "replay-container" => container::replay(&opts),
+        "record-container" => container::record(&opts),
         "replay-untrusted" => serde_io::replay_untrusted(&opts),
         "record-untrusted" => serde_io::record_untrusted(&opts),
         "record-scc" => search::record_scc(&opts),
